@@ -282,10 +282,8 @@ def digitsVal : Nat → Str → Nat
 
 /-- `strconv.Atoi(s)` followed by the `c < 0` test of `ParseCapacityHint`: the accepted non-negative value -/
 def atoiNonneg (s : Str) : Option Nat :=
-  let (neg, ds) : Bool × Str := match s with
-    | 43 :: rest => (false, rest)
-    | 45 :: rest => (true, rest)
-    | _ => (false, s)
+  let neg : Bool := s.head? == some 45
+  let ds : Str := if s.head? == some 43 || s.head? == some 45 then s.drop 1 else s
   if ds.isEmpty || !ds.all isDigit then none
   else
     let v := digitsVal 0 ds
